@@ -1,7 +1,7 @@
 (* C03 - Terminal input decoding is lossless, chunk-independent and fully flushed.
    Statements only; proofs are in Proofs/C03_*.v.  The model is
    Model/C03_Vt100Parser.v (Vt100Parser.feed / flush and the coroutine
-   _input_parser_generator as written; ANSI_SEQUENCES regenerated).
+   _input_parser_generator as written at /repo HEAD; ANSI_SEQUENCES regenerated).
    A schedule is a list of [Feed data] (one read) and [Flush]; [run_ops ops init]
    is the parser after the schedule, [out] the key presses emitted so far
    (key, data), [pending] = (open paste: start mark ++ paste buffer) ++ prefix. *)
@@ -93,28 +93,38 @@ Theorem C03_longest_first : forall st i ks,
 Proof. exact longest_first. Qed.
 Print Assumptions C03_longest_first.
 
-(* "After a flush nothing remains buffered except an unterminated bracketed
-   paste" is FALSE for the code as it is (finding C03-F1 / DESIGN F2):
-   feed("\x1b[M\x1b"); flush() leaves "\x1b" in the prefix. *)
-Theorem C03_flush_empties_refuted :
-  exists ops, let st := run_ops (ops ++ [Flush]) init in in_paste st = false /\ prefix st <> [].
-Proof. exact flush_not_empty. Qed.
-Print Assumptions C03_flush_empties_refuted.
+(* After a flush nothing remains buffered except an unterminated bracketed
+   paste: in EVERY state the coroutine's prefix is empty after flush() (the
+   flush flag is kept across the retries since fix e3d939f) ... *)
+Theorem C03_flush_empties : forall st,
+  prefix (flush st) = [] /\ oof (flush st) = oof st.
+Proof. exact flush_empties_any. Qed.
+Print Assumptions C03_flush_empties.
 
+(* ... so after any schedule that ends with a flush, the only pending input is
+   an open paste (its start mark and content so far). *)
+Theorem C03_flush_empties_schedule : forall ops,
+  let st := run_ops (ops ++ [Flush]) init in
+  prefix st = [] /\ pending st = (if in_paste st then start_mark ++ paste_buf st else []).
+Proof. exact flush_empties_schedule. Qed.
+Print Assumptions C03_flush_empties_schedule.
+
+(* the former counterexample is now decoded completely *)
 Theorem C03_flush_witness :
   let st := flush (feed [27; 91; 77; 27] init) in
-  prefix st = [27] /\ in_paste st = false /\ oof st = false /\
-  out st = [(KKey key_Escape, [27]); (KChar 91, [91]); (KChar 77, [77])].
-Proof. exact flush_leaves_prefix. Qed.
+  prefix st = [] /\
+  out st = [(KKey key_Escape, [27]); (KChar 91, [91]); (KChar 77, [77]); (KKey key_Escape, [27])].
+Proof. exact flush_witness. Qed.
 Print Assumptions C03_flush_witness.
 
-(* With the flush flag kept across the retries of the coroutine
-   (fixes/C03-flush-retry.patch; model [process_fixed]) the statement holds at
-   full strength, in every state. *)
-Theorem C03_flush_fixed_empties : forall st,
-  prefix (flush_fixed st) = [] /\ oof (flush_fixed st) = oof st.
-Proof. exact flush_fixed_empties. Qed.
-Print Assumptions C03_flush_fixed_empties.
+(* The coroutine as it stood at the pinned commit ("flush = False" at the top of
+   every retry; model [process_pinned]) did not satisfy it: finding C03-F1 /
+   DESIGN F2, repaired in /repo by e3d939f. *)
+Theorem C03_flush_pinned_refuted :
+  exists st, st = feed [27; 91; 77; 27] init /\
+    in_paste (flush_pinned st) = false /\ prefix (flush_pinned st) <> [].
+Proof. exact flush_pinned_not_empty. Qed.
+Print Assumptions C03_flush_pinned_refuted.
 
 (* Non-vacuity: the table has multi-key entries without BracketedPaste. *)
 Example C03_table_has_tuples :
